@@ -79,6 +79,8 @@ func init() {
 				Params: core.Params(c03Params{Kind: "directed", Gate: "G7", Workers: 1, Rounds: tierPick(tier, 150, 1500)})})
 			bs = append(bs, core.Batch{Name: "first-start-race", TimeoutS: 600, Race: true,
 				Params: core.Params(c03Params{Kind: "first-start", Workers: 2, Cycles: tierPick(tier, 60, 400)})})
+			bs = append(bs, core.Batch{Name: "restart-during-subscribe", TimeoutS: 300,
+				Params: core.Params(c03Params{Kind: "restart-during-subscribe", Workers: 3, Cycles: tierPick(tier, 10, 80)})})
 			bs = append(bs, core.Batch{Name: "api-while-stopping", TimeoutS: 300,
 				Params: core.Params(c03Params{Kind: "api-while-stopping", Workers: 4, Cycles: tierPick(tier, 20, 200)})})
 			bs = append(bs, core.Batch{Name: "listen-and-serve", TimeoutS: 300,
@@ -138,6 +140,10 @@ func c03Run(c *core.Ctx, b core.Batch) {
 	}
 	if p.Kind == "api-while-stopping" {
 		c03APIWhileStopping(c, p)
+		return
+	}
+	if p.Kind == "restart-during-subscribe" {
+		c03RestartDuringSubscribe(c, p)
 		return
 	}
 	if p.Kind == "stress" {
@@ -477,7 +483,7 @@ func (s *c03Svc) startWithRacingCalls(start func() error) error {
 					return
 				default:
 				}
-				name := []string{"ResetAll", "Reset", "TokenEvent", "With", "Conn", "TokenReset"}[(n+g)%6]
+				name := []string{"ResetAll", "Reset", "TokenEvent", "With", "Conn", "TokenReset", "WithQueryEvent"}[(n+g)%7]
 				s.apiCall(name+":during-start", func() {
 					switch name {
 					case "ResetAll":
@@ -492,6 +498,10 @@ func (s *c03Svc) startWithRacingCalls(start func() error) error {
 						_ = sv.Conn()
 					case "TokenReset":
 						sv.TokenReset("auth.svc.m.1.relogin", "tid")
+					case "WithQueryEvent":
+						// accepted as soon as the service counts as started, i.e. possibly while it is
+						// still making its subscriptions
+						sv.With("svc.m.8", func(rs res.Resource) { rs.QueryEvent(func(res.QueryRequest) {}) })
 					}
 				})
 				if n%8 == 7 {
@@ -500,6 +510,8 @@ func (s *c03Svc) startWithRacingCalls(start func() error) error {
 			}
 		}(g)
 	}
+	// subscriptions that take a moment each, as on a real connection
+	s.rig.C.FailSubscribe = func(string, int) error { time.Sleep(150 * time.Microsecond); return nil }
 	err := start()
 	close(stopEarly)
 	early.Wait()
@@ -509,7 +521,6 @@ func (s *c03Svc) startWithRacingCalls(start func() error) error {
 // restartWorkload: after a restart an exactly-once workload must run.
 func (s *c03Svc) restartWorkload(what interface{}) bool {
 	c := s.c
-	s.rig.C.NoGoID = true
 	before := atomic.LoadInt64(&s.n)
 	const k = 30
 	for i := 0; i < k; i++ {
@@ -785,7 +796,6 @@ func c03Oversubscribed(c *core.Ctx, p c03Params) {
 			ok = false
 			break
 		}
-		s.rig.C.NoGoID = true
 		c.Distinct(fmt.Sprintf("%s/%d", c.Batch.Name, cy))
 	}
 	close(stop)
@@ -942,6 +952,93 @@ func c03StartupFault(c *core.Ctx, p c03Params) {
 			return
 		}
 		c.Distinct(fmt.Sprintf("startup-fault/w%d/%d", p.Workers, failNth))
+	}
+}
+
+// c03RestartDuringSubscribe: Serve is still making its last subscription (the call is held
+// on the connection) when Shutdown is called - the service counts as started by then, so
+// the call is accepted and completes - and the service is served again on a new connection
+// before the held subscription returns. The first Serve call then returns, the second run
+// keeps exactly its own workers, stays started and works, and stops like any other.
+func c03RestartDuringSubscribe(c *core.Ctx, p c03Params) {
+	probe := newC03Svc(c, p.Workers)
+	if err := probe.rig.start(); err != nil {
+		c.Inconclusive("start: " + err.Error())
+		return
+	}
+	last := len(probe.rig.C.Subs())
+	probe.rig.stop()
+	for cy := 0; cy < p.Cycles; cy++ {
+		workers := []int{p.Workers, 1, 8}[cy%3]
+		s := newC03Svc(c, workers)
+		// the held subscription is the last one (the first Serve then finishes its start-up
+		// normally) or the one before it (its last subscription then fails on the closed
+		// connection, and the start-up is given up: that concerns the first run only)
+		held := last - cy%2
+		what := map[string]interface{}{"scenario": "Shutdown and a new Serve while the first Serve is still inside a subscription", "workers": workers, "cycle": cy, "subscriptions": last, "held_subscription": held}
+		var nsub int32
+		arrived, release := make(chan struct{}), make(chan struct{})
+		conn1 := s.rig.C
+		conn1.FailSubscribe = func(string, int) error {
+			if int(atomic.AddInt32(&nsub, 1)) == held {
+				close(arrived)
+				waitCh(release, 30*time.Second)
+			}
+			return nil
+		}
+		ret1 := make(chan error, 1)
+		go func() {
+			var err error
+			if pn, stack := tryStack(func() { err = s.rig.S.Serve(conn1) }); pn != nil {
+				c.Violation("C03/panic:Serve:"+short(fmt.Sprint(pn), 60), fmt.Sprintf("Serve panicked: %v", pn), map[string]interface{}{"scenario": what, "stack": short(stack, 2500)})
+			}
+			ret1 <- err
+		}()
+		if !waitCh(arrived, 10*time.Second) {
+			close(release)
+			c.Inconclusive("restart-during-subscribe: the last subscription was never made")
+			return
+		}
+		c.Eval(1)
+		sd := make(chan struct{})
+		go func() { s.apiCall("Shutdown", func() { s.rig.S.Shutdown() }); close(sd) }()
+		if !waitCh(sd, 10*time.Second) {
+			close(release)
+			c.Violation("C03/shutdown-did-not-return:during-subscribe", "Shutdown called while Serve was making its last subscription did not return within 10 s", what)
+			return
+		}
+		if err := s.rig.restart(); err != nil {
+			close(release)
+			c.Violation("C03/restart-failed", "a stopped service (its first Serve call still inside a subscription) could not be served again: "+err.Error(), what)
+			return
+		}
+		close(release)
+		select {
+		case <-ret1:
+		case <-time.After(10 * time.Second):
+			n := mon.CountGoroutines("go-res.(*Service).startWorker")
+			c.Violation("C03/serve-did-not-return:restart-during-subscribe", fmt.Sprintf("the Serve call of the run that was shut down had not returned 10 s after its held subscription completed (the service is being served again; %d worker goroutines, %d configured)", n, workers), what)
+			s.rig.S.Shutdown()
+			return
+		}
+		time.Sleep(3 * time.Millisecond)
+		if st, _, _, _ := s.rig.S.VerifState(); st != 2 {
+			c.Violation("C03/previous-run-stops-next-run", fmt.Sprintf("the tail of the first Serve call left the second run in state %d", st), what)
+			return
+		}
+		if n := mon.CountGoroutines("go-res.(*Service).startWorker"); n != workers {
+			c.Violation("C03/worker-count-after-restart", fmt.Sprintf("the run served during the first run's last subscription has %d worker goroutines, %d are configured", n, workers), what)
+			s.rig.S.Shutdown()
+			return
+		}
+		c.Obs("restarts_during_subscribe", 1)
+		c.Distinct(fmt.Sprintf("restart-during-subscribe/w%d/%d", workers, cy%4))
+		if !s.restartWorkload(what) {
+			return
+		}
+		if !s.shutdownAndCheck(what, workers, nil) {
+			return
+		}
 	}
 }
 
@@ -1382,10 +1479,35 @@ func c03Directed(c *core.Ctx, p c03Params) {
 				c.Violation("C03/restart-failed", "a stopped service could not be served again: "+err.Error(), what)
 				return
 			}
-			s.rig.C.NoGoID = true
 			producers.Wait()
 			c.Eval(1)
 			c.Obs("gates_parked", 1)
+			// the served-again service serialises the group of the late submission like any other:
+			// callbacks submitted now (and the late one, if it is accepted) never run two at a time
+			var inGroup, maxInGroup int32
+			var awg sync.WaitGroup
+			for k := 0; k < 8; k++ {
+				awg.Add(1)
+				if err := sv.With("svc.m.gate", func(rs res.Resource) {
+					defer awg.Done()
+					if n := atomic.AddInt32(&inGroup, 1); n > atomic.LoadInt32(&maxInGroup) {
+						atomic.StoreInt32(&maxInGroup, n)
+					}
+					time.Sleep(300 * time.Microsecond)
+					atomic.AddInt32(&inGroup, -1)
+				}); err != nil {
+					awg.Done()
+				}
+			}
+			adone := make(chan struct{})
+			go func() { awg.Wait(); close(adone) }()
+			if !waitCh(adone, 10*time.Second) {
+				c.Inconclusive("callbacks submitted after the restart did not all run")
+				return
+			}
+			if m := atomic.LoadInt32(&maxInGroup); m > 1 {
+				c.Violation("C03/overlap-after-restart:G7", fmt.Sprintf("after Shutdown and a new Serve (with a With call of the previous run released during the new Serve) %d callbacks of group svc.m.gate ran at the same time", m), what)
+			}
 			ok = s.shutdownAndCheck(what, p.Workers, done)
 		case "G6":
 			// Serve on a service that is being stopped
